@@ -17,6 +17,17 @@ func init() {
 		defer env.Close()
 		return RunSeq(env, a[0], a[1], a[2])
 	}
+	Modes["rating"] = func(a []string) error {
+		if len(a) != 3 {
+			return fmt.Errorf("rating <prefix> <cases.json> <out.ndjson>")
+		}
+		env, err := StartEnv(EnvOpts{NoAbmf: true})
+		if err != nil {
+			return err
+		}
+		defer env.Close()
+		return RunRating(env, a[0], a[1], a[2])
+	}
 	Modes["abmf"] = func(a []string) error {
 		if len(a) != 3 {
 			return fmt.Errorf("abmf <prefix> <behaviours.json> <out.ndjson>")
